@@ -59,6 +59,8 @@ def run(ctx):
     ctx.do(rule_descends, rule_id="C03.selector-acceptance")
     from .C08 import rule_every_entry_yielded
     ctx.do(rule_every_entry_yielded, rule_id="C03.selector-acceptance")
+    from .C08 import rule_one_judge_of_selectors
+    ctx.do(rule_one_judge_of_selectors, rule_id="C03.selector-acceptance")
     # "accepted AND PRESERVED": what a timestamp slot keeps is the instant the text denotes, cut only as the slot prescribes
     from . import C15
     ctx.do(C15.rule_truncate, rule_id="C03.timestamp-pipeline")
